@@ -329,6 +329,29 @@ func streamEq(o *Out, r *rand.Rand, n int, thorough bool) {
 			}
 		}
 	}
+	// numbers of every Go kind a host can bind: equal exactly when Go's == on the common value says so, one answer in every form
+	hostNums := map[string]interface{}{"up5": uintptr(5), "up7": uintptr(7), "u8": uint8(5), "u64": uint64(5), "i8": int8(5), "i16": int16(7), "f32": float32(5), "i5": int64(5), "i7": int64(7)}
+	hostVal := map[string]float64{"up5": 5, "up7": 7, "u8": 5, "u64": 5, "i8": 5, "i16": 7, "f32": 5, "i5": 5, "i7": 7}
+	var hn []string
+	for k := range hostNums {
+		hn = append(hn, k)
+	}
+	sort.Strings(hn)
+	for _, l := range hn {
+		for _, rr := range hn {
+			want := hostVal[l] == hostVal[rr]
+			for _, form := range []string{l + " == " + rr, "!(" + l + " != " + rr + ")", l + " in [" + rr + "]", "switch " + l + " {\ncase " + rr + ":\ntrue\ndefault:\nfalse\n}"} {
+				out := runScript(form, hostNums, nil)
+				o.Sum.Evaluations++
+				o.Sum.Hist["host-number-kinds"]++
+				got, ok := asBool(out)
+				if !ok || got != want {
+					o.Fail(Failure{Oracle: "go-eq", Key: "eq-host-number-kinds", Input: form + fmt.Sprintf("  with %s = %T(%v), %s = %T(%v)", l, hostNums[l], hostNums[l], rr, hostNums[rr], hostNums[rr]),
+						Detail: fmt.Sprintf("the numbers are equal: %v; the script says %v", want, out.answer(vals.Encode))})
+				}
+			}
+		}
+	}
 	// membership in TYPED lists (host-supplied or made by the script) is the same relation: item in T  <=>  some T[i] == item
 	typedLists := map[string]interface{}{
 		"ti": []int64{0, 1, 2, 10, 65}, "ts": []string{"A", "1", "10", "", "true", "010"}, "tf": []float64{0, 1.5, 3, 10}, "tb": []bool{true}, "tb0": []bool{false},
